@@ -63,7 +63,7 @@ func Props(c *Ctx) map[string]*Prop {
 				func(c *Ctx) (map[*core.Func]bool, map[*core.Func]bool) { return c.parseScope() }),
 			rulePF2(), rulePF3("parser", "printer", "ast"), rulePF4("parser"), ruleYY1("parser"), ruleLAST1(), ruleCC1("parser"),
 			ruleGR1("parser"), ruleGR3(), rulePU8(), rulePU8b(), ruleRC2("parser"), ruleRC3(), ruleCC4("parser"), ruleCC6(), ruleGR4(),
-			ruleCC7(), ruleCC8("parser"), ruleNL1(), ruleNL2(), ruleCC9(),
+			ruleCC7(), ruleCC8("parser"), ruleNL1(), ruleNL2(), ruleCC9("parser"), ruleNG1("parser"),
 		}})
 
 	add(&Prop{ID: "C19",
@@ -73,7 +73,7 @@ func Props(c *Ctx) map[string]*Prop {
 			pf1Rule("no index, slice, type-assertion or division site reachable from a downstream entry point can panic", 50,
 				func(c *Ctx) (map[*core.Func]bool, map[*core.Func]bool) { return c.downstreamScope(), nil }),
 			rulePF2(), rulePF3("printer", "interp", "ast", "pattern"), rulePF4("interp"), rulePF5(), ruleYY1("interp"), ruleEF7(), ruleFLD1(), ruleFLD2(), ruleCC1("interp"),
-			ruleGR1("parser", "interp"), ruleGR3(), rulePU8(), rulePU8b(), ruleTB2(), ruleSP(),
+			ruleGR1("parser", "interp"), ruleGR3(), rulePU8(), rulePU8b(), ruleTB2(), ruleSP(), ruleGL(),
 		}})
 	add(&Prop{ID: "C12",
 		Explanation: "Decides the translation-table side of pattern matching: every regular-expression metacharacter (oracle: regexp.QuoteMeta) is escaped or given pattern meaning in each of compile's three contexts, wild cards run in dot-all mode, the alternatives sit in exactly one capture group, anchors follow the mode bits exactly, bracket mode is left only at the closing bracket (BRK1), and no index/slice in Match/compile can panic on any pattern. Which prefix/suffix is selected (shortest/longest) and bracket-expression semantics are value-level and not decided.",
@@ -92,19 +92,19 @@ func Props(c *Ctx) map[string]*Prop {
 	add(&Prop{ID: "C11",
 		Explanation: "Decides the table side of C arithmetic: operator spellings the tokeniser recognises = the ops table (TB9a); each operator case computes `l S r` on signed 64-bit operands in that order, unary and truth tests as C defines them, constants parsed with base 0 (TB9b); the grammar's levels are C's precedence ladder with C's associativity (GR5) and the compiled tables are the grammar's (GR1, GR2); run-time faults are recovered into ArithExprError (PF5); whether side effects are executed inside reductions that C would skip (AR); and that the evaluation's outcome after a fault does not depend on the schedule: the parser stops consuming tokens (CC13) and the reported error has a deterministic winner (CC11). Numeric results are not computed.",
 		Assumptions: []string{"analysed build configuration linux/amd64 (int is 64-bit); the thorough tier re-checks the width under linux/386", "C's operator table (ISO C 6.5) is the external oracle"},
-		Rules:       []Rule{ruleGR1("interp"), ruleGR2("interp"), ruleGR5(), ruleTB9a("interp", "interp.(*lexer).lexOp", 15), ruleTB9b(), rulePF5(), ruleEF7(), ruleAR(), ruleAR3(), ruleCC13("interp"), ruleCC11("interp")}})
+		Rules:       []Rule{ruleGR1("interp"), ruleGR2("interp"), ruleGR5(), ruleTB9a("interp", "interp.(*lexer).lexOp", 15), ruleTB9b(), rulePF5(), ruleEF7(), ruleAR(), ruleAR3(), ruleCC13("interp"), ruleCC11("interp"), ruleCC9("interp"), ruleAR5()}})
 	add(&Prop{ID: "C06",
 		Explanation: "Decides race freedom and goroutine lifetime structurally for every path: goroutine roots always close their channels (CC1); every access to goroutine-touched lexer fields after a spawn is preceded by a join on all paths (CC2); every field shared between the lexer-role and parser-role functions with a write is accessed only under the mutex, atomically or as a channel operation (CC3); sends can always be abandoned, the cancel channel is closed at most once, atomics are used consistently (CC4/CC5); the here-document hand-off cannot deadlock (CC6, GR4, with the token channel a rendezvous, CC9); cancellation is observed only at the token hand-over, never polled (CC10); the error slot has a deterministic winner (CC11), a lexer that failed by itself offers no further token (CC12) and a parser that fails inside a reduction stops consuming (CC13); the bail-out does not kill the process (PF4). Which of two concurrently raised errors is returned is a schedule-dependent value and is not decided.",
 		Assumptions: []string{"the Go memory model: lock, atomic, channel and go/join edges order accesses", "roles are computed on an over-approximating call graph (reference based + CHA for interface calls)"},
-		Rules: []Rule{ruleCC1("parser", "interp"), ruleCC2("parser", "interp"), ruleCC3("parser", "interp"), ruleCC4("parser", "interp"), ruleCC6(), ruleGR1("parser"), ruleGR4(), rulePF4("parser", "interp"), ruleCC7(), ruleCC8("parser", "interp"), ruleCC9(), ruleCC10("parser", "interp"),
+		Rules: []Rule{ruleCC1("parser", "interp"), ruleCC2("parser", "interp"), ruleCC3("parser", "interp"), ruleCC4("parser", "interp"), ruleCC6(), ruleGR1("parser"), ruleGR4(), rulePF4("parser", "interp"), ruleCC7(), ruleCC8("parser", "interp"), ruleCC9("parser", "interp"), ruleNG1("parser", "interp"), ruleCC10("parser", "interp"),
 			ruleCC11("parser", "interp"), ruleCC12("parser", "interp"), ruleCC13("parser", "interp")}})
 	add(&Prop{ID: "C10",
 		Explanation: "A complete structural argument that a non-EOF error of the source's ReadRune reaches ParseCommands' caller: the source is read in exactly one function (EF1), which records every such error when the slot is empty (EF1); no store of a syntax error can replace a recorded reader error (EF2); ParseCommands returns that slot after joining the lexer (EF3, CC2); every scanner loop leaves on a failed read instead of spinning (RC2). errors.Is on wrapped errors is not modelled (the slot stores the reader's value itself).",
 		Assumptions: []string{"bufio.Reader / strings.Reader return the underlying reader's error unchanged"},
-		Rules:       []Rule{ruleEF1(), ruleEF2(), ruleRC2("parser"), ruleCC2("parser"), ruleCC7(), ruleCC8("parser"), ruleEF8()}})
+		Rules:       []Rule{ruleEF1(), ruleEF2(), ruleRC2("parser"), ruleCC2("parser"), ruleCC7(), ruleCC8("parser"), ruleEF8(), ruleSRC2()}})
 	add(&Prop{ID: "C03",
 		Explanation: "Decides only that every syntax error value is located: built with the caller's name and a recorded, non-zero position expression, that Lex records the position of every token it delivers, and that the lexer's error function discards a reported syntax error only when another error is already recorded (ER1). Rejection of ill-formed programs itself (language recognition) is not decidable structurally.",
-		Rules:       []Rule{ruleEF6(), ruleER1(), ruleHD7(), ruleLX("HD5"), ruleTK("TK1", "TK2")}})
+		Rules:       []Rule{ruleEF6(), ruleER1(), ruleHD7(), ruleLX("HD5"), ruleTK("TK1", "TK2"), ruleEF1()}})
 	add(&Prop{ID: "C18",
 		Explanation: "Decides purity, determinism and error reporting of the printer structurally: its only AST writes are the hide/undo idiom and every hide is undone by a deferred closure on all paths (PU1); nothing reachable from Fprint is a source of nondeterminism (PU2); all output goes through one buffered writer whose sticky error is returned through print, Config.Fprint and Fprint (EF5); here-document frames are balanced (PU8); the positions it consults are counted in characters (BR1, TB5) and nothing reachable from Fprint can panic (PF1). That the output is a fix-point of print∘parse is a value-level property and is not decided.",
 		Assumptions: []string{"bufio.Writer's sticky-error contract"},
@@ -115,7 +115,7 @@ func Props(c *Ctx) map[string]*Prop {
 				})}})
 	add(&Prop{ID: "C20",
 		Explanation: "Decides the write discipline of the variable store for every site: who may write vars/Args/Opts/Aliases (PU4), the read-only guard in Set (PU5), the exact set of Set callers and no Unset caller (PU6), no error return after an assignment in expandParam (PU7), no store into the AST by the expander and none into an ExecEnv by the parser (PU3), and agreement of the special-parameter sets (TB8). That Get/Walk behave as a map after arbitrary histories is a value-level property and is not decided.",
-		Rules:       []Rule{rulePU3(), rulePU4(), rulePU6(), rulePU9(), ruleTB8(), ruleGR1("interp"), ruleNG1("interp"), rulePP1()}})
+		Rules:       []Rule{rulePU3(), rulePU4(), rulePU6(), rulePU9(), ruleTB8(), ruleGR1("interp"), ruleNG1("interp"), rulePP1(), rulePU10()}})
 	add(&Prop{ID: "C05",
 		Explanation: "Decides only side conditions of the print/parse round trip: every semantic AST field and every Config field is read by the printer (TB6); pending here-document frames are balanced on every path under every combination of the style bits that guard them (PU8); the operator sets of scanner and expander/printer agree (TB10); nil-encoded fields are tested against nil (TB13); the positions the printer consults to space arithmetic tokens are counted in characters and End() adds the width of the stored token (BR1, TB5), and adjacency of two tokens is decided from line and column together (PS1); nothing reachable from Fprint can panic (PF1). Whether printed text re-parses to the same tree is not decidable structurally and is not claimed.",
 		Rules: []Rule{ruleTB6(), rulePU8(), rulePU8b(), ruleTB10(), ruleTB13(), rulePF3("printer"), ruleBR1(), ruleTB5(), rulePS1("printer", "parser"), ruleGR1("parser"), ruleGR3(),
@@ -130,20 +130,20 @@ func Props(c *Ctx) map[string]*Prop {
 			pf1Rule("no index/slice/assertion in the expansion functions can panic", 20,
 				func(c *Ctx) (map[*core.Func]bool, map[*core.Func]bool) {
 					return c.scopeOf("interp.(*ExecEnv).Expand"), nil
-				})}})
+				}), rulePU10()}})
 	add(&Prop{ID: "C02",
 		Explanation: "Decides only side conditions of 'every grammatical program is accepted': the compiled tables and actions are goyacc's output for the checked-in grammar (GR1), which is conflict-free (GR2); every nonterminal carries the dynamic types its consumers assert and the lists they index are non-empty (GR3); lexer tables and grammar agree on the terminal alphabet and every operator is scanned under its own spelling (GR6, TB9a); a reserved word is translated at every dispatch a raw word can reach (RC5); every closer pushed on the nesting stack is matched somewhere (RC6). That the context-driven lexer hands the right token class in every state, and that the grammar is POSIX's, are language-level claims and are not decided.",
-		Rules:       []Rule{ruleGR1("parser"), ruleGR2("parser"), ruleGR3(), ruleGR6(), ruleTB9a("parser", "parser.(*lexer).scanOp", 8), ruleRC5(), ruleRC6(), ruleRC7(), ruleTK("TK1", "TK2")}})
+		Rules:       []Rule{ruleGR1("parser"), ruleGR2("parser"), ruleGR3(), ruleGR6(), ruleTB9a("parser", "parser.(*lexer).scanOp", 8), ruleRC5(), ruleRC6(), ruleRC7(), ruleTK("TK1", "TK2"), ruleHD()}})
 	add(&Prop{ID: "C04",
 		Explanation: "Decides that columns are counted in characters at every site that manufactures a position (taint from byte lengths/offsets to NewPos, shift and the cursor, BR1) and that End() adds the width of the token actually stored in the field (TB5). That each fixed offset equals the number of characters read since the documented character, containment and ordering of positions are value-level and not decided.",
 		Assumptions: []string{"operator and reserved-word spellings are ASCII (checked against the tables)", "Comment.End is excluded by the property's text"},
-		Rules:       []Rule{ruleBR1(), ruleTB5(), ruleGR1("parser"), ruleLX("PO1"), ruleRD1()}})
+		Rules:       []Rule{ruleBR1(), ruleTB5(), ruleGR1("parser"), ruleLX("PO1"), ruleRD1(), ruleSRC2(), ruleCM3(), ruleMK1()}})
 	add(&Prop{ID: "C07",
 		Explanation: "Decides a necessary condition of 'one call, one command': the newline that ends a command is never consumed silently — the newline-swallowing scanner is called only at grammar linebreak positions and never from the raw token scanner (RC4); and the reader is only touched by read/unread so look-ahead is undone through one place (EF1). Where exactly a command ends is language-level and not decided.",
-		Rules:       []Rule{ruleRC4(), ruleRC7(), ruleEF1(), ruleCC2("parser"), ruleHD(), ruleLX("HD1b"), ruleTK("SRC1")}})
+		Rules:       []Rule{ruleRC4(), ruleRC7(), ruleEF1(), ruleCC2("parser"), ruleHD(), ruleLX("HD1b"), ruleTK("SRC1"), ruleSRC2()}})
 	add(&Prop{ID: "C08",
 		Explanation: "Decides the structure of here-document handling: announce/push/pop protocol and FIFO order (CC6), no look-ahead needed to push (GR4 with GR1), operator-dependent delimiter search, literal body iff the delimiter of that very here-document was quoted, delimiter only at column 1 (HD), every state that emits a redirection operator counts an announced here-document (HD6), no panic in the body reader (PF1). Byte-exact bodies and delimiter matching after quote removal are value-level and not decided.",
-		Rules: []Rule{ruleCC6(), ruleGR1("parser"), ruleGR4(), ruleHD(), ruleHD6(), ruleHD7(), ruleLBK(), ruleLX("HD1b", "HD5"),
+		Rules: []Rule{ruleCC6(), ruleGR1("parser"), ruleGR4(), ruleHD(), ruleHD6(), ruleHD7(), ruleLBK(), ruleSRC2(), ruleLX("HD1b", "HD5"),
 			pf1Rule("no index/slice/assertion in the here-document reader can panic", 3,
 				func(c *Ctx) (map[*core.Func]bool, map[*core.Func]bool) {
 					s := map[*core.Func]bool{}
@@ -166,7 +166,7 @@ func Props(c *Ctx) map[string]*Prop {
 				})}})
 	add(&Prop{ID: "C09",
 		Explanation: "Decides only three side conditions of layout inertness: a comment can never make the lexer swallow the newline token (RC4) and comments inside substitutions are merged into the result on every successful path (CM1, reported by RC6); in a for header the lexer skips the linebreak after each separator before it looks for `do` (LB1). The metamorphic equalities themselves are not decidable structurally.",
-		Rules:       []Rule{ruleRC4(), ruleRC6(), ruleLB1(), ruleLBK(), ruleLX("CM2"), ruleTK("TK2")}})
+		Rules:       []Rule{ruleRC4(), ruleRC6(), ruleLB1(), ruleLBK(), ruleLX("CM2"), ruleCM3(), ruleTK("TK2")}})
 	add(&Prop{ID: "C14",
 		Explanation: "Decides side conditions of field splitting: quoted segments bypass the cutter, are joined as quoted and keep a field alive (SP1), unset IFS means space-tab-newline (SP2), cut offsets advance by the rune's encoded width (BR3), the two parallel slices of a field stay in step (FLD2), no panic in split (PF1). The cutter's state machine itself is value-level and not decided.",
 		Rules: []Rule{ruleSP(), ruleFLD2(), rulePU4(), ruleNG1("interp"),
@@ -176,9 +176,9 @@ func Props(c *Ctx) map[string]*Prop {
 				}), ruleBR4()}})
 	add(&Prop{ID: "C15",
 		Explanation: "Decides structural necessary conditions of 'quoted text is literal': quoted parts are joined as quoted and expanded in Quote mode, tilde only on unquoted literals (QU1); single quotes interpret nothing (QU2); the double-quote escape set is POSIX's (TB7); the three pattern-special character sets agree so quoted characters are escaped in Pattern mode, and any pre-test that lets a quoted segment skip the escape searches for the whole set (TB4); the pattern package keeps no state between calls, so what a quoted text matches cannot depend on earlier patterns (NG1); quoted segments are never split (SP1). The end-to-end identity is value-level and not decided.",
-		Rules:       []Rule{ruleQU(), ruleTB7(), ruleTB4(), ruleSP(), rulePF2(), ruleNG1("pattern"), ruleRD1()}})
+		Rules:       []Rule{ruleQU(), ruleTB7(), ruleTB4(), ruleSP(), rulePF2(), ruleNG1("pattern"), ruleRD1(), ruleSRC2(), ruleESC1()}})
 	add(&Prop{ID: "C17",
 		Explanation: "Decides termination and position side conditions of alias substitution: an alias is pushed only after a membership test on the active stack (RC3), only a single unquoted literal can be substituted, assignments are recognised first, and substitution happens only at command-name / alias-continuation positions (AL1); the 'ends in a blank' test uses the scanner's blank set (TB11 in TB7); alias-driven loops are the only non-read-driven cycles (RC2); the nested lexer of a command substitution shares the alias stack, so an alias value containing `$(` is lexed as text of the alias (NL1). Equality with textual replacement is language-level and not decided.",
-		Rules:       []Rule{ruleRC3(), ruleTB7(), ruleRC2("parser"), ruleLX("AL2", "AL3"), ruleNL1(), ruleNL2()}})
+		Rules:       []Rule{ruleRC3(), ruleTB7(), ruleRC2("parser"), ruleLX("AL2", "AL3"), ruleNL1(), ruleNL2(), ruleRC8()}})
 	return m
 }
